@@ -27,7 +27,8 @@ RULE = ("random molecules glued from 73 FG-rich fragments (carbonyls, esters, am
         "plus ring PATTERNS of 3-5 members (17 patterns, with and without wildcards, chain prefixes as less specific groups) against the same ring and "
         "every copy with one ring bond doubled, in different writings; plus molecules whose largest node id is exactly 0 / -1 / 1 (single atoms with id 0, "
         "ids ending at 0) with groups that list a pattern hydrogen; plus a family of small hetero rings (3-6 members, O/N/S in the ring, substituents on ring atoms), each in 3 different SMILES writings / adjacency "
-        "orders, with user configurations of chain patterns of depth 1-4 from a hetero anchor (a deep pattern and its prefixes as less specific groups); "
+        "orders; small molecules (1-4 heavy atoms) against user configurations whose anti-pattern or user-given depth is larger (or smaller) than the pattern; "
+        "with user configurations of chain patterns of depth 1-4 from a hetero anchor (a deep pattern and its prefixes as less specific groups); "
         "about 12% of the user configurations give two groups the same name (the checker resolves each returned entry independently against all groups carrying its name); "
         "require_implicit_hydrogen both ways. Checks: 'spec' = every clause with 'no CHILD witnessed' (must hold for every configuration), 'descendant' = the full "
         "statement 'no DESCENDANT witnessed' (run on every case, generated configurations included), 'descendant_unattributed' = a descendant failure "
@@ -155,6 +156,36 @@ def gen_zero_case(rng):
             "scheme": "max%+d" % top if top else "max0", "hmode": "none", "kind": "ids-around-zero"}
 
 
+SMALL_MOLS = ["CO", "O", "CCO", "C", "CC", "CN", "N", "COC", "C=O", "OC=O", "CCl", "CS", "OO", "NCO", "C1OC1", "CC(=O)O"]
+SMALL_CONFIGS = [
+    # the anti-pattern (or the user-given depth) is LARGER than the pattern: the molecule may be smaller than
+    # max_pattern_size and still contain the group
+    [{"name": "alcohol", "pattern": "COH", "anti_pattern": ["OC(O)(O)C(O)(O)O"]}],
+    [{"name": "hydroxy", "pattern": "OH", "anti_pattern": ["CC(C)(C)OH", "RC(=O)OH"]},
+     {"name": "oxy", "pattern": "RO", "group_atoms": [1]}],
+    [{"name": "amine", "pattern": "RN", "group_atoms": [1], "anti_pattern": ["RC(=O)N(R)R"]},
+     {"name": "carbon", "pattern": "C", "depth": 6}],
+    [{"name": "alcohol", "pattern": "COH", "depth": 9}, {"name": "ether", "pattern": "COC", "anti_pattern": ["C1OC1CCCC"]},
+     {"name": "oxy", "pattern": "RO", "group_atoms": [1], "depth": 12}],
+    [{"name": "carbonyl", "pattern": "C=O", "anti_pattern": ["RC(=O)OC(=O)CCCC"]},
+     {"name": "acid", "pattern": "RC(=O)OH", "group_atoms": [1, 2, 3], "anti_pattern": ["OC(=O)C(C)(C)C(C)(C)C"]}],
+    [{"name": "het", "pattern": "RO", "group_atoms": [1], "depth": 1}, {"name": "alcohol", "pattern": "COH", "depth": 2}],
+]
+
+
+def gen_small_case(rng):
+    """small molecules (1-4 heavy atoms) against user configurations whose anti-pattern, or whose user-given `depth`, is
+    larger than the pattern itself - or smaller (depth 1 / 2): the molecule can have fewer atoms than max_pattern_size and
+    still contain the group, so nothing may be decided from that size"""
+    from fgutils.parse import parse
+    g = parse(fc.write_smiles(fc._frag(rng.choice(SMALL_MOLS)), rng))
+    scheme = "smiles"
+    if rng.random() < 0.3:
+        g, scheme, _ = gens.reid(rng, g)
+    return {"graph": g, "specs": [dict(x) for x in rng.choice(SMALL_CONFIGS)], "req_h": rng.random() < 0.7,
+            "scheme": scheme, "hmode": "none", "kind": "small-vs-max-pattern-size"}
+
+
 def gen_edited_case(rng):
     """the molecule is a graph OBJECT that the same FGQuery has already been asked about and that the caller then edited in
     place (get(g), edit g, get(g)): the judged answer is the second one, against the contents after the edit"""
@@ -182,6 +213,8 @@ def generate(seed, tier, ncases=None):
             cases.extend(gen_ring_pattern_cases(lib.rng_for(seed, ID, 800000 + 100 * rep + j), pat, writings=1 if quick or ncases else 2))
     for j in range(max(2, (ncases // 12) if ncases else (30 if quick else 600))):
         cases.append(gen_zero_case(lib.rng_for(seed, ID, 900000 + j)))
+    for j in range(max(2, (ncases // 12) if ncases else (30 if quick else 600))):
+        cases.append(gen_small_case(lib.rng_for(seed, ID, 920000 + j)))
     for j in range(max(2, (ncases // 15) if ncases else (20 if quick else 500))):
         cases.append(gen_edited_case(lib.rng_for(seed, ID, 950000 + j)))
     attach_outputs(cases)
